@@ -39,10 +39,14 @@ VARIABLES l,        \* next line
 vars == <<l, sh, th, ob, gh, ex, sum>>
 
 MaxFails == 20
+MaxPerMon == 6
 (* keep the first failure of each monitor per execution *)
 AddFails(s, fs) ==
-  LET new == {f \in fs : ~\E g \in s.fails : g.mon = f.mon /\ g.sc = f.sc /\ g.run = f.run} IN
-  IF Cardinality(s.fails) >= MaxFails THEN s ELSE [s EXCEPT !.fails = @ \cup new]
+  \* the first failure of each monitor per execution, at most MaxPerMon executions per monitor
+  \* (a cap over all monitors together would let a noisy monitor hide the others)
+  LET new == {f \in fs : /\ ~\E g \in s.fails : g.mon = f.mon /\ g.sc = f.sc /\ g.run = f.run
+                         /\ Cardinality({g \in s.fails : g.mon = f.mon}) < MaxPerMon} IN
+  [s EXCEPT !.fails = @ \cup new]
 
 Fail(mon, line) == [mon |-> mon, line |-> line, sc |-> ex.sc, run |-> ex.run]
 
